@@ -51,7 +51,10 @@ def judge_matrices(strs):
     R, S, ph = impl.gens_to_matrices(gens, n)
     ref = impl.Stabilizer(list(strs))
     msgs = []
-    variants = [("int8+phases", (R, S, ph)), ("int64+phases", (R.astype(np.int64), S.astype(np.int64), ph.astype(np.int64)))]
+    variants = [("int8+phases", (R, S, ph)), ("int64+phases", (R.astype(np.int64), S.astype(np.int64), ph.astype(np.int64))),
+                ("float64+phases", (R.astype(np.float64), S.astype(np.float64), ph.astype(np.float64))),
+                ("bool+phases", (R.astype(bool), S.astype(bool), ph.astype(bool))),
+                ("int8 matrices + float phases", (R, S, ph.astype(np.float64)))]
     if not ph.any():
         variants += [("int8", (R, S)), ("int64", (R.astype(np.int64), S.astype(np.int64)))]
     for name, data in variants:
